@@ -330,6 +330,13 @@ fn eviction_config(a: &Algo) -> foyer_memory::EvictionConfig {
             cmsketch_confidence: 0.9,
         }
         .into(),
+        Algo::LfuSketch { window, protected, eps } => foyer_memory::LfuConfig {
+            window_capacity_ratio: window,
+            protected_capacity_ratio: protected,
+            cmsketch_eps: eps,
+            cmsketch_confidence: 0.9,
+        }
+        .into(),
     }
 }
 
